@@ -492,6 +492,10 @@ impl HelpTemplate<'_, '_> {
                     arg.get_id(),
                     longest
                 );
+            } else {
+                // Short-only flags don't take part in the alignment but `align_to_about` still
+                // needs them to fit (e.g. `-v...`)
+                longest = longest.max(display_width(&arg.to_string()));
             }
 
             let key = (sort_key)(arg);
